@@ -38,6 +38,25 @@ type world struct {
 	ref   map[string][]byte
 	dirty bool
 	sig   []string // canonical description of the case (for the distinct count)
+	mode  mpt.TrieMode
+	idx   uint32 // last Flush index ("block height"), increasing
+}
+
+// setMode restarts the (still empty) case in another storage mode. The expanded-trie model does not
+// depend on the mode: contents, roots, proofs and ordered reads must be the same in ModeAll,
+// ModeLatest (reference counting, unreferenced nodes deleted at Flush) and ModeGC (reference counting,
+// unreferenced nodes deactivated with the Flush index; the GC itself is C11's domain and is not run).
+func (w *world) setMode(mode mpt.TrieMode) {
+	w.mode = mode
+	w.tr = mpt.NewTrie(nil, mode, w.st)
+	w.o.Count(fmt.Sprintf("mode:%d", mode))
+	w.note(fmt.Sprintf("m%d", mode))
+}
+
+// flushNow flushes with the next index (one Flush = one block).
+func (w *world) flushNow() {
+	w.idx++
+	w.tr.Flush(w.idx)
 }
 
 func newWorld(o *hx.Out, k int, r *prng.R) *world {
@@ -176,14 +195,14 @@ func bucket(n int) int {
 }
 
 func (w *world) flush() {
-	obs := hx.Safe(func() string { w.tr.Flush(0); return "ok" })
+	obs := hx.Safe(func() string { w.flushNow(); return "ok" })
 	w.dirty = false
 	w.o.Count("flush")
 	w.o.Line("flush", obs)
 }
 
 func (w *world) collapse(d int) {
-	obs := hx.Safe(func() string { w.tr.Flush(0); w.tr.Collapse(d); return "ok" })
+	obs := hx.Safe(func() string { w.flushNow(); w.tr.Collapse(d); return "ok" })
 	w.dirty = false
 	w.o.Count("collapse")
 	w.o.Line(fmt.Sprintf("collapse %d", d), obs)
@@ -191,12 +210,12 @@ func (w *world) collapse(d int) {
 
 func (w *world) reopen() {
 	obs := hx.Safe(func() string {
-		w.tr.Flush(0)
+		w.flushNow()
 		rt := w.tr.StateRoot()
 		if rt.Equals(util.Uint256{}) {
-			w.tr = mpt.NewTrie(nil, mpt.ModeAll, w.st)
+			w.tr = mpt.NewTrie(nil, w.mode, w.st)
 		} else {
-			w.tr = mpt.NewTrie(mpt.NewHashNode(rt), mpt.ModeAll, w.st)
+			w.tr = mpt.NewTrie(mpt.NewHashNode(rt), w.mode, w.st)
 		}
 		return "ok"
 	})
@@ -376,7 +395,7 @@ func (w *world) seek(prefix, start []byte, back bool) {
 	}
 	var got []storage.KeyValue
 	obs := hx.Safe(func() string {
-		ts := mpt.NewTrieStore(w.tr.StateRoot(), mpt.ModeAll, w.st)
+		ts := mpt.NewTrieStore(w.tr.StateRoot(), w.mode, w.st)
 		ts.Seek(storage.SeekRange{Prefix: append([]byte{byte(storage.STStorage)}, prefix...), Start: start, Backwards: back}, func(k, v []byte) bool {
 			got = append(got, storage.KeyValue{Key: bytes.Clone(k), Value: bytes.Clone(v)})
 			return true
@@ -616,6 +635,7 @@ func main() {
 			o.Count("case:decoder")
 		default:
 			longCase = f.Tier == "thorough" && k%12 == 5
+			w.setMode([]mpt.TrieMode{mpt.ModeAll, mpt.ModeLatest, mpt.ModeGC}[(k/2)%3])
 			genCase(w)
 			longCase = false
 			o.Count("case:ops")
